@@ -59,7 +59,13 @@ let check (b : block) : verdict list =
   (* the accepted-lines definition of the model agrees with the oracle's *)
   let model_acc = List.map Conv.ocaml_string (Model.before_exit (List.map Conv.coq_string inputs)) in
   if model_acc <> accepted then add (Diff ("before_exit", "Model.before_exit differs from the oracle's accepted lines"));
-  let ref_ok = (match find b "ref_status" with Some ["exit"; "0"] -> true | _ -> false) && List.length refs = n in
+  let ref_status = match find b "ref_status" with Some t -> String.concat " " t | None -> "?" in
+  (* the reference run is a run of the implementation too (one worker, stdin closed after the last answer) *)
+  if ref_status = "timeout" then
+    add (Viol ("stream:no-exit", Printf.sprintf "single worker, lock-step: the process did not terminate after end of input (%d of %d answers printed)" (List.length refs) n))
+  else if ref_status <> "exit 0" then
+    add (Viol ("stream:crash", "single worker, lock-step: the process ended with status " ^ ref_status));
+  let ref_ok = List.length refs = n in
   if not ref_ok then
     add (Diff ("ref-incomplete", Printf.sprintf "the single-worker reference run gave %d answers for %d lines" (List.length refs) n))
   else begin
